@@ -9,7 +9,7 @@ import numpy as np
 
 from env import get_dtype, get_xp, tonp
 from env.choice_rng import ChoiceRNG
-from env.lattice import exact_rhs, make_flow, model_1d, proposal_masses
+from env.lattice import exact_rhs, exact_rhs_nd, make_flow, make_flow_nd, model_1d, model_2d, proposal_masses
 from env.targets import Monitor
 from mc import explorer
 from mc.par import pmap
@@ -18,7 +18,7 @@ from mc.report import Report
 LEVEL = "exploration"
 RULE = ("probability-weighted exhaustive exploration of every proposal draw x resampling index tuple x kernel "
         "proposal/accept outcome of real Aspire.sample_posterior on lattice models (target x preconditioning x "
-        "sampler x schedule length x n_final_samples x proposal masses x namespace); one evaluation = one complete "
+        "sampler x schedule length x n_final_samples x proposal masses x namespace; 1-D with N=2 or 3 particles and 2-D product lattices); one evaluation = one complete "
         "execution; non-trivial = execution whose particles are not all at the same lattice point or that contains "
         "a rejected/moved kernel step; distinct = distinct (config, choice sequence)")
 ASSUMPTIONS = [
@@ -46,27 +46,36 @@ def run_tree(cfg):
     # C01 only asks for correctness up to rounding of the narrowest width that may occur
     f32 = ns == "torch" or dt == "float32"
     tol = 2e-5 if f32 else 1e-9
-    m = model_1d(target, precond, K)
-    Q = proposal_masses(K, skew)
-    rhs = exact_rhs(m, FS)
     N = 2
+    dims = 1
+    if target.endswith("-2d"):
+        dims = 2
+        m = model_2d(target[:-3], precond, 2)
+        Q = proposal_masses(4, skew)
+        rhs = exact_rhs_nd(m, FS)
+    else:
+        if target.endswith("-n3"):
+            N = 3
+        m = model_1d(target.replace("-n3", ""), precond, K)
+        Q = proposal_masses(K, skew)
+        rhs = exact_rhs(m, FS)
     xp = get_xp(ns)
 
     def body(ctx):
-        _kernel.reset(mode="lattice", h=m["h"], ctx=ctx)
+        _kernel.reset(mode="lattice", h=m.get("hvec", m["h"]), ctx=ctx)
         rng = ChoiceRNG(ctx)
         orng.CONFIG["factory"] = lambda: rng
         _kernel.CONFIG["emcee_seed"] = 0
         mon = Monitor(m["like"], m["prior"], ns)
-        flow = make_flow(m, Q, ctx, ns)
+        flow = make_flow(m, Q, ctx, ns) if dims == 1 else make_flow_nd(m, Q, ctx, ns)
         flow.tol = 1e-5
-        a = Aspire(log_likelihood=mon.log_likelihood, log_prior=mon.log_prior, dims=1, parameters=m["parameters"],
+        a = Aspire(log_likelihood=mon.log_likelihood, log_prior=mon.log_prior, dims=dims, parameters=m["parameters"],
                    prior_bounds=m["bounds"], periodic_parameters=m["periodic"], flow=flow, xp=xp,
                    dtype=get_dtype(ns, dt))
         if sampler == "importance":
             s = a.sample_posterior(n_samples=N, sampler="importance")
             w = tonp(s.weights).astype(np.float64)
-            x = tonp(s.x).astype(np.float64).reshape(-1)
+            x = tonp(s.x).astype(np.float64).reshape(len(w), -1)[:, 0]
             return ("is", float(tonp(s.log_evidence)), w.tolist(), x.tolist())
         kw = dict(n_steps=T, adaptive=False, n_final_samples=nfinal)
         if target == "cut":
@@ -94,7 +103,7 @@ def run_tree(cfg):
             smp.rng = rng
             kw["sampler_kwargs"] = {"nsteps": 1, "progress": False}
             s = smp.sample(N, **kw)
-        x = tonp(s.x).astype(np.float64).reshape(-1)
+        x = tonp(s.x).astype(np.float64).reshape(len(s.x), -1)[:, 0]
         return ("smc", float(tonp(s.log_evidence)), None, x.tolist())
 
     tot_p = mp.mpf(0)
@@ -175,6 +184,16 @@ def configs(tier):
                                 out.append((target, precond, sampler, T, nfinal, K, skew, "torch"))
                                 out.append((target, precond, sampler, T, nfinal, K, skew, "torch:float64"))
                                 out.append((target, precond, sampler, T, nfinal, K, skew, "numpy:float32"))
+    # two dimensions (product lattice, 2 points per dimension) and N=3 particles, one temperature step
+    for precond in ("none", "logit", "probit"):
+        for sampler in ("importance", "smc", "emcee_smc"):
+            out.append(("box-2d", precond, sampler, 0 if sampler == "importance" else 1, None, 2, "skew", "numpy"))
+    out.append(("periodic-2d", "default", "smc", 1, None, 2, "skew", "numpy"))
+    for precond in ("none", "logit"):
+        out.append(("box-n3", precond, "smc", 1, None, 2, "skew", "numpy"))
+    if tier == "thorough":
+        out.append(("box-2d", "logit", "smc", 2, None, 2, "skew", "numpy"))
+        out.append(("box-n3", "probit", "emcee_smc", 1, 1, 2, "skew", "numpy"))
     return out
 
 
